@@ -18,8 +18,9 @@ func init() {
 		Title: "Malformed or corrupted input yields an error, never a crash or wrong data",
 		Explain: "Decides by abstract interpretation of integer bounds (E5) and guard/path rules: every raw-buffer access and every cursor advance inside realDecoder is justified by a `remaining() ≥ need` test that is still valid at the access, bulk read loops by a `remaining() ≥ width·n` test (C10.prim); every make([]T, n)/make(map, n) reachable from the decoders of data the client does not control has a non-negative, input-bounded or small-constant size — facts flow from the getters' own code through computed summaries, are trusted only after the paired error was tested, and respect integer widths of the target architecture (C10.alloc); " +
 			"the response header rejects lengths outside (4, MaxResponseSize] and the receive loop sizes its buffer from that checked length (C10.cap); decode/versionedDecode succeed only if the whole buffer was consumed, length and CRC fields report a mismatch as an error (C10.consumed); decoder loops bounded by remaining() > 0 consume input or exit on every iteration (C10.loop-progress). " +
+			"no decoding step of the response path whose error is non-nil is answered with `return nil` — after a failed getter the cursor is at the end of the input, so such a swallowed error would let a truncated response through the final length test (C10.err-propagated; the ErrInsufficientData comparison of the truncated-tail handling is the one exempt idiom). " +
 			"NOT covered: memory use of decompression, hangs inside third-party codecs, CRC collision strength, semantic validity of decoded values.",
-		Rules: []func(*Ctx){c10Prim, c10Alloc, c10Cap, c10Consumed, c10LoopProgress},
+		Rules: []func(*Ctx){c10Prim, c10Alloc, c10Cap, c10Consumed, c10LoopProgress, c10ErrPropagated},
 	})
 }
 
@@ -904,5 +905,88 @@ func c10LoopProgress(c *Ctx) {
 	}
 	if n == 0 {
 		c.Fail(rule, nil, "loops", nil, "no remaining()-bounded decode loop found", nil)
+	}
+}
+
+// ---------------------------------------------------------------- C10.err-propagated
+
+// c10ErrPropagated: a decoding step that reports an error must not be answered with success.  After a failed
+// getter the cursor of realDecoder sits at the end of the input, so the top-level "all bytes consumed" test
+// passes: a decode method that returns nil there hands a half-filled value to the caller as if it were valid.
+func c10ErrPropagated(c *Ctx) {
+	p := c.P
+	rule := "C10.err-propagated"
+	c.Doc(rule, "every decode function reachable from the response path: after a packetDecoder getter, a nested decode or a pop() returned a non-nil error, no `return nil` is reachable — unless the error was compared with ErrInsufficientData on that path (the tabled truncated-tail handling of fetch responses and message sets)")
+	c.Floor(rule, 400)
+	dr := p.decodeReachable()
+	var fns []*ssa.Function
+	for f := range dr {
+		fns = append(fns, f)
+	}
+	sort.Slice(fns, func(i, j int) bool { return p.Name(fns[i]) < p.Name(fns[j]) })
+	isErrT := func(t types.Type) bool { return t.String() == "error" }
+	insufficient := p.ErrVal("ErrInsufficientData")
+	for _, fn := range fns {
+		if fn.Signature.Results().Len() == 0 || !isErrT(fn.Signature.Results().At(fn.Signature.Results().Len()-1).Type()) {
+			continue
+		}
+		fi := Info(fn)
+		reg := WholeFn(fn)
+		fi.Each(func(it Item) {
+			cl, ok := it.In.(*ssa.Call)
+			if !ok {
+				return
+			}
+			// calls that read from the decoder: interface methods of packetDecoder/pushDecoder, realDecoder methods,
+			// nested decode methods
+			decoding := false
+			if cl.Call.IsInvoke() {
+				n, _ := NamedOf(cl.Call.Value.Type())
+				decoding = n == "packetDecoder" || n == "pushDecoder" || n == "dynamicPushDecoder" || n == "protocolBody" && cl.Call.Method.Name() == "decode" || n == "versionedDecoder" || n == "decoder"
+			} else if cal := cl.Call.StaticCallee(); cal != nil && dr[cal] {
+				decoding = true
+			}
+			if !decoding {
+				return
+			}
+			res := cl.Call.Signature().Results()
+			if res.Len() == 0 || !isErrT(res.At(res.Len()-1).Type()) {
+				return
+			}
+			var errV ssa.Value = cl
+			if res.Len() > 1 {
+				errV = nil
+				for _, r := range *cl.Referrers() {
+					if ex, ok := r.(*ssa.Extract); ok && ex.Index == res.Len()-1 {
+						errV = ex
+					}
+				}
+			}
+			if errV == nil {
+				c.Fail(rule, fn, "error-ignored:"+p.CalleeName(&cl.Call), cl, "the error result of a decoding step is never looked at: a truncated input is decoded as if it were complete", nil)
+				return
+			}
+			failed := Cmp{token.NEQ, Same(errV), IsNil()}
+			bad := ""
+			var path []*ssa.BasicBlock
+			var at ssa.Instruction = cl
+			for _, e := range reg.EstablishingEdges(failed) {
+				sub := *reg.From(Pt{e.To, 0})
+				// the truncated-tail idiom: the error is compared with ErrInsufficientData
+				sub.Cut = func(from, to *ssa.BasicBlock) bool {
+					return Establishes(from, to, Cmp{token.EQL, Same(errV), insufficient})
+				}
+				if r, pth := sub.Reach(ReturnNilErr(), func(x Item) bool {
+					// the error variable is assigned anew (a later step) before the return: not this error any more
+					return false
+				}); !r.IsZero() {
+					// a later test of a *different* error that is nil does not excuse this one; but the return must
+					// be reachable without another failing step having been detected: accept only direct returns
+					bad, path, at = "returns nil although this decoding step failed", pth, r.Instr()
+				}
+			}
+			c.Check(bad == "", rule, fn, "err:"+p.CalleeName(&cl.Call), at, "a failure of this decoding step is never answered with success",
+				"the function "+bad+": after the failure the cursor is at the end of the input, so the caller's all-bytes-consumed test passes and a truncated or corrupt response is accepted with partly filled fields", path)
+		})
 	}
 }
